@@ -3,7 +3,8 @@
 cd "$(dirname "$0")/.."
 mode=${1:---quick}; shift
 ids=${*:-$(python3 -c "import json;print(' '.join(c['property_id'] for c in json.load(open('MANIFEST.json'))['checks']))")}
+logdir=out/runall; mkdir -p $logdir     # per copy of /verif: a background run in a snapshot must not share its logs with an interactive one
 for id in $ids; do
-  s=$(date +%s); ./check $id $mode > /tmp/runall-$id.log 2>&1; rc=$?; e=$(date +%s)
-  echo "$id rc=$rc $((e-s))s $(grep -cE '^VIOLATION' /tmp/runall-$id.log) violations $(grep -cE '^KNOWN-FINDING' /tmp/runall-$id.log) known $(grep -c SPEC-DRIFT /tmp/runall-$id.log) drift"
+  s=$(date +%s); ./check $id $mode > $logdir/$id.log 2>&1; rc=$?; e=$(date +%s)
+  echo "$id rc=$rc $((e-s))s $(grep -cE '^VIOLATION' $logdir/$id.log) violations $(grep -cE '^KNOWN-FINDING' $logdir/$id.log) known $(grep -c SPEC-DRIFT $logdir/$id.log) drift"
 done
